@@ -5,6 +5,8 @@
 //! op the exact virtual timestamps of message-builder calls, handled messages, timer-handle
 //! results and the target's exit (reason as seen by its supervisor).  No `verif` controller is
 //! installed: tasks are scheduled by tokio itself.
+//! All durations (periods, clock advances) and all timestamps are in MICROSECONDS: periods such
+//! as 900 µs, 1500 µs, 2500 µs and sub-millisecond advances are exercised next to whole ms.
 //!
 //! usage: timers --seed S --cases N --out DIR [--replay-ops f1,f2] [--only-replay 1]
 
@@ -18,7 +20,7 @@ use hutil::{Args, Log, Rng, Stats};
 use ractor::concurrency::{Duration, JoinHandle};
 use ractor::{Actor, ActorProcessingErr, ActorRef, ActorStatus, MessagingErr, SupervisionEvent};
 
-type Ev = (u32, u32, u64); // (timer id, k, virtual ms)
+type Ev = (u32, u32, u64); // (timer id, k, virtual µs)
 
 #[derive(Default)]
 struct Shared {
@@ -29,11 +31,11 @@ struct Shared {
 
 fn now_ms(t0: tokio::time::Instant) -> u64 {
     let d = tokio::time::Instant::now() - t0;
-    // whole milliseconds only; anything else is reported verbatim as a fraction marker
-    if d.subsec_nanos() % 1_000_000 != 0 {
-        return 9_000_000_000 + d.as_micros() as u64;
+    // whole microseconds only; anything else is reported verbatim as a fraction marker
+    if d.subsec_nanos() % 1_000 != 0 {
+        return 9_000_000_000_000 + d.as_nanos() as u64;
     }
-    d.as_millis() as u64
+    d.as_micros() as u64
 }
 
 struct Target {
@@ -190,7 +192,7 @@ async fn quiesce() {
 /// Move the paused clock by `d` WITHOUT yielding: the first poll of `tokio::time::advance`
 /// bumps the clock and registers a deferred yield; we return before the time driver has run.
 async fn bump_clock(d: u64) {
-    let mut adv = Box::pin(tokio::time::advance(Duration::from_millis(d)));
+    let mut adv = Box::pin(tokio::time::advance(Duration::from_micros(d)));
     let first = std::future::poll_fn(|cx| Poll::Ready(adv.as_mut().poll(cx))).await;
     if first.is_pending() {
         adv.await; // second poll of `yield_now` is ready immediately
@@ -217,7 +219,7 @@ async fn run_case(ops: &[Op]) -> Vec<String> {
     let mut out = Vec::new();
     let (mut n_att, mut n_hd) = (0usize, 0usize);
     for op in ops {
-        let ms = Duration::from_millis;
+        let ms = Duration::from_micros; // every op parameter is in µs
         match op {
             Op::Sa(p) => {
                 let id = timers.len() as u32;
@@ -379,9 +381,27 @@ fn gen_case(rng: &mut Rng, st: &mut Stats) -> Vec<Op> {
     let mut n_timers = 0usize;
     let mut have_exit_after = false;
     // small value sets so that deadlines, advances and exits coincide often
-    let per = [0u64, 0, 1, 1, 2, 3, 3, 5, 8, 13];
-    let iper = [1u64, 1, 2, 3, 5, 7];
-    let adv = [0u64, 1, 1, 2, 3, 4, 5, 7, 10, 16, 40];
+    // the case's unit: whole milliseconds (values coincide often), or microseconds with periods
+    // and advances that are not whole milliseconds (tokio's wheel rounds deadlines up to 1 ms)
+    let fine = rng.chance(1, 2);
+    let per: Vec<u64> = if fine {
+        vec![0, 1, 400, 900, 999, 1000, 1001, 1500, 2000, 2500, 2500, 3000, 4700, 8000]
+    } else {
+        [0u64, 0, 1, 1, 2, 3, 3, 5, 8, 13].iter().map(|x| x * 1000).collect()
+    };
+    let iper: Vec<u64> = if fine {
+        vec![300, 700, 1000, 1500, 2500, 2500, 3000, 7100]
+    } else {
+        [1u64, 1, 2, 3, 5, 7].iter().map(|x| x * 1000).collect()
+    };
+    let adv: Vec<u64> = if fine {
+        vec![0, 1, 300, 500, 500, 999, 1000, 1000, 1500, 2000, 2500, 3000, 5000, 10400, 25000]
+    } else {
+        [0u64, 1, 1, 2, 3, 4, 5, 7, 10, 16, 40].iter().map(|x| x * 1000).collect()
+    };
+    if fine {
+        st.bump("cases_with_sub_ms_durations");
+    }
     for _ in 0..n {
         let r = rng.below(100);
         let op = if r < 34 || n_timers == 0 {
@@ -428,10 +448,32 @@ fn gen_case(rng: &mut Rng, st: &mut Stats) -> Vec<Op> {
     ops
 }
 
-/// Hand-written boundary cases: every position of abort / exit relative to the expiry.
+/// scale a whole-millisecond boundary case to microseconds
+fn ms_case(ops: Vec<Op>) -> Vec<Op> {
+    use Op::*;
+    ops.into_iter()
+        .map(|o| match o {
+            Sa(p) => Sa(p * 1000),
+            Si(p) => Si(p * 1000),
+            Dsa(p) => Dsa(p * 1000),
+            Dsi(p) => Dsi(p * 1000),
+            Ea(p) => Ea(p * 1000),
+            Ka(p) => Ka(p * 1000),
+            Adv(d) => Adv(d * 1000),
+            AdvAbort(d, i) => AdvAbort(d * 1000, i),
+            AdvStop(d) => AdvStop(d * 1000),
+            AdvKill(d) => AdvKill(d * 1000),
+            AdvDrain(d) => AdvDrain(d * 1000),
+            o => o,
+        })
+        .collect()
+}
+
+/// Hand-written boundary cases: every position of abort / exit relative to the expiry
+/// (whole milliseconds, scaled to µs), then periods and advances that are not whole ms.
 fn fixed_cases() -> Vec<Vec<Op>> {
     use Op::*;
-    vec![
+    let whole: Vec<Vec<Op>> = vec![
         vec![Sa(0)],
         vec![Sa(5), Adv(4), Adv(1), Adv(1)],
         vec![Sa(5), Adv(4), Abort(0), Adv(1)],
@@ -471,7 +513,31 @@ fn fixed_cases() -> Vec<Vec<Op>> {
         vec![Sa(1), Sa(1), Si(1), Si(1), Adv(1), Adv(1), Kill, Adv(1)],
         vec![Dsa(5), Dsi(3), Adv(3), Adv(2), AdvAbort(1, 1), Kill, Adv(4)],
         vec![Dsi(2), Adv(7), Stop, Adv(2), Dsa(0), Dsi(1), Adv(3)],
-    ]
+    ];
+    let mut all: Vec<Vec<Op>> = whole.into_iter().map(ms_case).collect();
+    all.extend(vec![
+        // never early for periods that are not whole ms: nothing at 2 ms, everything at 3 ms
+        vec![Ea(2500), Adv(2000), Adv(1000)],
+        vec![Ka(2500), Adv(2000), Adv(500), Adv(500)],
+        vec![Sa(2500), Dsa(2500), Adv(2000), Adv(499), Adv(1), Adv(500)],
+        // 900 µs is not 0 ms
+        vec![Ea(900), Adv(0), Adv(500), Adv(500)],
+        vec![Sa(900), Ka(999), Adv(999), Adv(1)],
+        vec![Sa(1), Adv(0), Adv(1), Adv(999)],
+        // armed off the millisecond grid
+        vec![Adv(1500), Sa(700), Ea(1500), Adv(500), Adv(500), Adv(500), Adv(500)],
+        vec![Adv(300), Si(1000), Adv(700), Adv(300), Adv(700), Adv(1300)],
+        // sub-ms intervals: several ticks complete at one ms boundary
+        vec![Si(300), Adv(500), Adv(500), Adv(1000)],
+        vec![Dsi(700), Adv(1000), Adv(1000), Adv(400), Adv(600), Kill, Adv(1000)],
+        vec![Si(1500), Adv(1500), Adv(500), Adv(1000), Adv(1500), Stop, Adv(1500)],
+        vec![Si(2500), Ea(7100), Adv(2000), Adv(1000), Adv(2000), Adv(3000)],
+        vec![Ea(2500), AdvAbort(2999, 0), Adv(1)],
+        vec![Ea(2500), AdvAbort(3000, 0), Adv(1)],
+        vec![Sa(1500), AdvKill(1999), Adv(1)],
+        vec![Sa(1500), AdvDrain(2000), Adv(1)],
+    ]);
+    all
 }
 
 fn main() {
